@@ -68,7 +68,7 @@ func (e *limbEngine) inputs(f *ssa.Function, st *lstate) (in limbInput) {
 			v := &lval{}
 			den := lpoly{}
 			for j := 0; j < stt.NumFields(); j++ {
-				fv := atom(fmt.Sprintf("%s.%s", name, stt.Field(j).Name()), stt.Field(j).Type())
+				fv := atom(fmt.Sprintf("%s.%s", name, fieldAliasName(stt.Field(j))), stt.Field(j).Type())
 				v.fields = append(v.fields, fv)
 			}
 			if w, ok := limbWeights(stt); ok {
@@ -103,7 +103,7 @@ func limbWeights(stt *types.Struct) ([]*big.Int, bool) {
 	}
 	if hi < 0 {
 		for j := 0; j < 2; j++ {
-			if strings.Contains(strings.ToLower(stt.Field(j).Name()), "hi") {
+			if strings.Contains(strings.ToLower(fieldAliasName(stt.Field(j))), "hi") {
 				hi = j
 			}
 		}
